@@ -9,7 +9,7 @@ from ..report import rule
 from .. import pm, norm, cfg as cfgmod, guards
 from ..model import AnalysisError
 from ..typestate import TypeState
-from .common import calls_of, find_calls, returns_of, is_abstract_body, bind_args
+from .common import bound_arg, calls_of, find_calls, returns_of, is_abstract_body, bind_args
 
 # call sites that choose the analysis mode with a literal (confirmed by reading)
 MODE_SITES = {
@@ -164,8 +164,10 @@ def c17_r3(ctx):
             ctx.ob(f, bad is None, "t.%s is assigned before every yield when `%s` is requested" % (attr, flag),
                    path=cfgmod.path_text(bad) if bad else None)
         toks = [c for c in norm.calls_in(f.node) if norm.call_name(c) == "Token"]
-        ok = bool(toks) and all(any((k.arg == "mode" and norm.canon(k.value) == "mode") or
-                                        (k.arg is None and "mode" not in params) for k in c.keywords) for c in toks)
+        def mode_forwarded(c):
+            m_ = bound_arg(prog, f, c, "mode")
+            return (m_ is not None and norm.canon(m_) == "mode") or any(k.arg is None and "mode" not in params for k in c.keywords)
+        ok = bool(toks) and all(mode_forwarded(c) for c in toks)
         ctx.ob(f, ok, "the analysis mode is forwarded into the Token")
     if n < 4:
         raise AnalysisError("only %d tokenizers analysed" % n)
